@@ -1557,6 +1557,19 @@ impl World for WorldD {
                         } else {
                             self.meter.hit("migrated_same_version");
                         }
+                        // C18: a default gas limit named by the (successful) migration is the default from now on
+                        if let Some(want) = msg["default_gas_limit"].as_u64() {
+                            let have = self.observe().and_then(|o| o.snap.default_gas_limit);
+                            if self.on("C18") && have != Some(want) {
+                                self.viol(
+                                    out,
+                                    "C18",
+                                    "migrate-default-gas-limit-not-applied",
+                                    json!({}),
+                                    format!("migrate set default_gas_limit {}, the contract reports {:?}", want, have),
+                                );
+                            }
+                        }
                         self.check_frames(&evs, &r, None, out);
                         self.check_state(false, out);
                     } else {
